@@ -61,15 +61,14 @@ func gid() int64 {
 type labelObs struct {
 	L      label
 	Ans    string // fast refused panic queued step stopped anomaly
-	V      int64
+	V      val
 	E      string
 	ID     int
 	Ev     event
 	Fin    *result
-	CacheV []int64
+	CacheV []val
 	CacheH []bool
-	StoreV []int64
-	StoreH []bool
+	StoreV []val
 	Note   string
 }
 
@@ -110,8 +109,7 @@ func (c *ctl) wait() (sig, bool) {
 func (c *ctl) snapshot(o *labelObs) {
 	g := &c.s.G
 	for _, k := range g.Univ {
-		v, ok := c.h.storeValue(k)
-		o.StoreV, o.StoreH = append(o.StoreV, v), append(o.StoreH, ok)
+		o.StoreV = append(o.StoreV, c.h.storeValue(k))
 		cv, cok := c.h.cachedValue(g.Kind, k)
 		o.CacheV, o.CacheH = append(o.CacheV, cv), append(o.CacheH, cok)
 	}
@@ -154,7 +152,8 @@ func (c *ctl) doCall(l label) {
 	g := &c.s.G
 	i := l.Job
 	o := c.s.Jobs[i]
-	oc := &opCtx{id: i, spec: o, tagged: true}
+	oc := newOpCtx(i, o)
+	oc.tagged = true
 	oc.onDone = func() { c.sigs <- sig{kind: "accepted", job: i} }
 	m := c.h.mark()
 	go func() {
@@ -593,7 +592,7 @@ func coqJob(i int, o opSpec) string {
 func (lo labelObs) coqAnswer() string {
 	switch lo.Ans {
 	case "fast":
-		return "(AFast " + vh.CoqZ(lo.V) + ")"
+		return "(AFast " + lo.V.coq() + ")"
 	case "refused":
 		return "(ARefused " + lo.E + ")"
 	case "panic":
@@ -637,7 +636,7 @@ func concCase(s *concSpec, out []labelObs, clean bool) vh.Case {
 		default:
 			lab = "GStop"
 		}
-		items = append(items, fmt.Sprintf("(%s, %s, %s, %s)", lab, lo.coqAnswer(), coqSnap(lo.CacheV, lo.CacheH), coqSnap(lo.StoreV, lo.StoreH)))
+		items = append(items, fmt.Sprintf("(%s, %s, %s, %s)", lab, lo.coqAnswer(), coqCacheSnap(lo.CacheV, lo.CacheH), coqStoreSnap(lo.StoreV)))
 		d := map[string]interface{}{}
 		switch lo.L.Kind {
 		case "cstep":
@@ -651,7 +650,7 @@ func concCase(s *concSpec, out []labelObs, clean bool) vh.Case {
 		}
 		switch lo.Ans {
 		case "fast":
-			d["answer"] = fmt.Sprintf("fast-path hit %d", lo.V)
+			d["answer"] = "fast-path hit " + lo.V.String()
 			fast++
 			if len(inflight) > 0 {
 				overlap++
@@ -678,13 +677,13 @@ func concCase(s *concSpec, out []labelObs, clean bool) vh.Case {
 		default:
 			d["answer"] = lo.Ans
 		}
-		st, ca := map[string]int64{}, map[string]int64{}
+		st, ca := map[string]string{}, map[string]string{}
 		for j, k := range g.Univ {
-			if lo.StoreH[j] {
-				st[fmt.Sprint(k)] = lo.StoreV[j]
+			if !lo.StoreV[j].Nil {
+				st[fmt.Sprint(k)] = lo.StoreV[j].String()
 			}
 			if lo.CacheH[j] {
-				ca[fmt.Sprint(k)] = lo.CacheV[j]
+				ca[fmt.Sprint(k)] = lo.CacheV[j].String()
 			}
 		}
 		d["store"], d["cache"] = st, ca
@@ -761,7 +760,7 @@ func genConc(r *rand.Rand, focus string) *concSpec {
 	}
 	g.InitL = init
 	n := 3 + r.Intn(7)
-	jobs := genSteps(r, &g, n)
+	jobs := genSteps(r, &g, n, false) // no cancellation here: a caller leaving early would no longer signal completion
 	if len(jobs) > 12 {
 		jobs = jobs[:12]
 	}
